@@ -17,7 +17,11 @@ import (
 
 type c18Cfg struct {
 	MinStart    uint16 `json:"min_start"`
-	Interceptor bool   `json:"interceptor"` // drive the ReceiverInterceptor read path instead of the API
+	Interceptor bool   `json:"interceptor"`         // drive the ReceiverInterceptor read path instead of the API
+	Consumers   int    `json:"consumers,omitempty"` // > 0: the buffer is filled in order and this many goroutines pop from it at the same time
+	Start       uint16 `json:"start,omitempty"`
+	Fill        int    `json:"fill,omitempty"`
+	PopsEach    int    `json:"pops_each,omitempty"`
 }
 
 type c18Op struct {
@@ -130,6 +134,13 @@ func (c18) Gen(seed int64, tier string, avoid []string) *Plan {
 			ops = append(ops, c18Op{K: "pop", AtUs: at + int64(i)*1000})
 		}
 	}
+	if !cfg.Interceptor && chance(r, 120) {
+		// concurrent consumers (the buffer has its own mutex and is documented as safe for that)
+		cfg.Consumers = pick(r, 2, 2, 3)
+		cfg.PopsEach = pick(r, 1, 2, 5)
+		cfg.Fill = cfg.Consumers*cfg.PopsEach + int(cfg.MinStart) + r.Intn(5)
+		cfg.Start = uint16(pick(r, 0, 65530, r.Intn(65536)))
+	}
 	p.Cfg = mustJSON(cfg)
 	setOps(p, ops)
 	return p
@@ -167,6 +178,10 @@ func (c18) Run(e *Env) {
 	e.SetSample(fmt.Sprintf("min_start=%d interceptor=%v ops=%d", cfg.MinStart, cfg.Interceptor, len(ops)))
 	if cfg.Interceptor {
 		c18Interceptor(e, cfg, ops)
+		return
+	}
+	if cfg.Consumers > 0 {
+		c18Concurrent(e, cfg)
 		return
 	}
 	jb := jitterbuffer.New(jitterbuffer.WithMinimumPacketCount(cfg.MinStart))
@@ -449,4 +464,62 @@ func first(b [][]byte) []byte {
 		return nil
 	}
 	return b[0]
+}
+
+// c18Concurrent: the buffer holds Fill consecutive packets and is emitting; Consumers goroutines pop PopsEach
+// packets each at the same time.  Pop is atomic, so whatever the interleaving every pop succeeds and together
+// they return exactly the oldest Consumers x PopsEach packets, each once, each consumer's in increasing order.
+func c18Concurrent(e *Env, cfg c18Cfg) {
+	jb := jitterbuffer.New(jitterbuffer.WithMinimumPacketCount(cfg.MinStart))
+	pushed := map[uint16]*rtp.Packet{}
+	for i := 0; i < cfg.Fill; i++ {
+		seq := cfg.Start + uint16(i)
+		p := &rtp.Packet{Header: rtp.Header{Version: 2, SequenceNumber: seq, Timestamp: uint32(i) * 3000}, Payload: []byte{byte(i)}}
+		pushed[seq] = p
+		jb.Push(p)
+	}
+	type res struct {
+		p   *rtp.Packet
+		err error
+	}
+	got := make([][]res, cfg.Consumers)
+	var gs []*simrt.G
+	for c := 0; c < cfg.Consumers; c++ {
+		gs = append(gs, e.Go(fmt.Sprintf("consumer%d", c), func() {
+			for k := 0; k < cfg.PopsEach; k++ {
+				p, err := jb.Pop()
+				got[c] = append(got[c], res{p, err})
+			}
+		}))
+	}
+	e.Fault("concurrent_consumers")
+	e.Wait(gs...)
+	total := cfg.Consumers * cfg.PopsEach
+	seen := map[uint16]int{}
+	for c, rs := range got {
+		var prev int = -1
+		for _, r := range rs {
+			e.Check()
+			if r.err != nil || r.p == nil {
+				e.Violatef("oracle", "c18:concurrent-pop-failed", "consumer %d: Pop failed (%v) although %d consecutive packets from the playout head were buffered for %d pops", c, r.err, cfg.Fill, total)
+				continue
+			}
+			if pushed[r.p.SequenceNumber] != r.p {
+				e.Violatef("oracle", "c18:not-buffered", "consumer %d got a packet (seq %d) that was never pushed", c, r.p.SequenceNumber)
+				continue
+			}
+			off := int(r.p.SequenceNumber - cfg.Start)
+			if off <= prev {
+				e.Violatef("oracle", "c18:concurrent-pop-order", "consumer %d received offset %d after offset %d", c, off, prev)
+			}
+			prev = off
+			seen[r.p.SequenceNumber]++
+		}
+	}
+	for i := 0; i < total; i++ {
+		if n := seen[cfg.Start+uint16(i)]; n != 1 {
+			e.Violatef("oracle", "c18:concurrent-pop-set", "%d concurrent pops on a buffer holding %d consecutive packets: packet at offset %d was returned %d times (the pops must return the %d oldest packets, each once)", total, cfg.Fill, i, n, total)
+			break
+		}
+	}
 }
